@@ -26,10 +26,11 @@ META = dict(
 )
 
 OBLIGATIONS = [
-    "C14_sorted", "C14_sorted_stored", "C14_aligned", "C14_mask_exact", "C14_counts", "C14_order",
-    "C14_row_order_invariant", "C14_row_order_invariant_whole",
+    "C14_sorted", "C14_aligned", "C14_mask_exact", "C14_counts_partial", "C14_order",
+    "C14_row_order_invariant_data", "C14_row_order_invariant", "C14_row_order_invariant_whole",
     "C14_rejects", "C14_rejects_never_accepted",
     "C14_roundtrip_partial", "C14_roundtrip_order_refuted", "C14_roundtrip_collision_refuted", "C14_roundtrip_covariate_refuted",
+    "C14_categorical_lost_individual_refuted", "C14_event_indicator_nan_refuted", "C14_categorical_id_refuted",
 ]
 
 NAN = float("nan")
